@@ -17,7 +17,7 @@ META = {
     "negative/huge ids, theta -> theta + 2 pi k (k in +-1, +-2, 3, -5) on every single SE(2) vertex / measurement / offset and on all at once, EVERY sign pattern of quaternion negation over all "
     "SE(3) vertices, measurements and offsets (2^q, q<=8), every subset of edges split into two half-information edges, information scaling c in {1e-12, 1e-6, 1e-3, 0.5, 2, 1e3}. At every state of the "
     "trajectory x_{k+1} = GN(x_k): chi2(R(x)) = c chi2(x) and GN(R(x)) = R(GN(x)). non-trivial = R is not the identity and the step moves a vertex",
-    "assumptions": ["finite graph family; information matrices have translation-rotation cross terms", "tolerance 1e-9 scaled; ill-conditioned states end the trajectory (counted)"],
+    "assumptions": ["finite graph family; information matrices have translation-rotation cross terms", "tolerance 1e-11 scaled (measured rounding noise <= 2e-14 scaled); ill-conditioned states end the trajectory (counted)"],
     "required_classes": ["R:vertex_perm", "R:edge_perm", "R:relabel", "R:angle_2pi", "R:quat_sign", "R:split", "R:scale", "kind:SE2", "kind:SE3", "custom_edges", "slam_family", "shape_family", "cross_term_information"],
     "bounds": {"quick": "shape family: 1 step (2 states); SLAM n=3: 5 steps; id pool of 4", "thorough": "5 steps everywhere; SLAM n in {3,6}; id pool of 6"},
 }
